@@ -82,12 +82,32 @@ FunVal(f, u) ==
     [] f = "MEDIAN" -> Bc(n, IF Len(s) # n THEN Undef ELSE MedianNum(s))
     [] f = "MAD"    -> Bc(n, MedianNum([i \in DOMAIN s |-> RAbs(s[i])]))
 
+\* A sub-tree whose value passes through a division (/, ^ with a negative exponent, the means inside AVG / VAR / MSE) is
+\* computed by the implementation in binary floating point with rounding: where the specification's exact value makes a
+\* DISCRETE decision on an exact tie (a comparison of equal values, the sign of zero, the position of a repeated extremum)
+\* the implementation's rounding noise may fall either way, so nothing is claimed there (Undef).  Values that differ, and
+\* every continuous result, are still compared.
+RECURSIVE Inexact(_)
+Inexact(t) == CASE t[1] = "L" -> FALSE
+                [] t[1] = "B" -> t[2] \in {"/", "^"} \/ Inexact(t[3]) \/ Inexact(t[4])
+                [] t[1] = "N" -> Inexact(t[2])
+                [] t[1] = "F" -> t[2] \in {"AVG", "VAR", "MSE"} \/ Inexact(t[3])
+Repeated(u, v) == Cardinality({i \in DOMAIN u : u[i] = v}) > 1
 RECURSIVE Denote(_, _)
 Denote(t, e) ==
   CASE t[1] = "L" -> IF t[2] \in Lits THEN Bc(e.n, LitVal(t[2])) ELSE Column(e, t[2])
-    [] t[1] = "B" -> LET u == Denote(t[3], e)  v == Denote(t[4], e) IN [i \in 1..e.n |-> BinVal(t[2], u[i], v[i])]
+    [] t[1] = "B" -> LET u == Denote(t[3], e)  v == Denote(t[4], e)
+                         noisy == t[2] \in {"<", ">"} /\ (Inexact(t[3]) \/ Inexact(t[4]))
+                     IN [i \in 1..e.n |-> IF noisy /\ IsNum(u[i]) /\ u[i] = v[i] THEN Undef ELSE BinVal(t[2], u[i], v[i])]
     [] t[1] = "N" -> LET u == Denote(t[2], e) IN [i \in 1..e.n |-> RNeg(u[i])]
-    [] t[1] = "F" -> FunVal(t[2], Denote(t[3], e))
+    [] t[1] = "F" -> LET u == Denote(t[3], e)
+                         r == FunVal(t[2], u)
+                         s == Nums(u)
+                     IN IF ~Inexact(t[3]) \/ AnyUndef(u) THEN r
+                        ELSE IF t[2] = "SIGN" THEN [i \in 1..e.n |-> IF u[i] = Zero THEN Undef ELSE r[i]]
+                        ELSE IF t[2] = "ARGMIN" /\ s # <<>> /\ Repeated(u, MinNum(s)) THEN Bc(e.n, Undef)
+                        ELSE IF t[2] = "ARGMAX" /\ s # <<>> /\ Repeated(u, MaxNum(s)) THEN Bc(e.n, Undef)
+                        ELSE r
 
 \* a sub-tree made of literals only is a scalar for the implementation; functions need a feature
 RECURSIVE HasFeature(_)
